@@ -141,7 +141,7 @@ Section Main.
   Variable U : uni.
   Variable ut : text -> nat.
   Variable et : text -> nat -> option nat.
-  (* the passes of Document::parse after condense_number_suffixes (condense_ellipsis, condense_latin,
+  (* the passes of Document::parse after condense_dotted_initialisms (condense_ellipsis, condense_latin,
      match_quotes, articles_imply_nouns, dictionary metadata); `src` is the document's source *)
   Variable post_passes : text -> list token -> list token.
   Hypothesis L_digit_numeric : forall c, is_ascii_digit c = true -> u_numeric U c = true.
@@ -185,7 +185,7 @@ Section Main.
   Proof.
     intros Hne HD Hlt Hrow Hctx.
     destruct (lex_doc_shape U ut et L_digit_numeric L_alpha_alnum L_alpha_lingual L_alpha_not_numeric
-                pre D a b sx post Hne HD Hlt Hrow Hctx) as (LA & LB & HL & HnA & HnB & HwA & HwB & HaB).
+                pre D a b sx post Hne HD Hlt Hrow Hctx) as (LA & LB & HL & HnA & HnB & HwA & HwB).
     set (p := length pre) in *. set (d := length D) in *.
     set (Nt := mktok (mkspan p (p + d)) (KNumber (VInt (parse_dec D)) None)) in *.
     set (Wt := mktok (mkspan (p + d) (p + d + 2)) KWord) in *.
@@ -197,24 +197,24 @@ Section Main.
     rewrite E2. cbn [bind].
     destruct (newlines_to_breaks_shape A2 Nt Wt B2 eq_refl eq_refl G2) as (A3 & B3 & E3 & G3).
     rewrite E3.
-    destruct (condense_contractions_shape A3 Nt Wt B3 eq_refl eq_refl eq_refl) as (A4 & B4 & E4 & G4).
-    { cbn [Wt tspan sstart send]. lia. } { exact G3. }
-    rewrite E4. cbn [bind].
-    destruct (condense_initialisms_shape A4 Nt Wt B4 eq_refl eq_refl eq_refl) as (A5 & B5 & E5 & HnA5 & HnB5).
-    { cbn [Wt tspan sstart send]. lia. } { cbn [Wt tspan sstart send]. lia. } { exact G4. }
-    rewrite E5. cbn [bind].
-    rewrite (condense_number_suffixes_shape _ (VInt (parse_dec D)) sx [a; b] A5 Nt Wt B5 eq_refl eq_refl).
-    - cbn [bind]. f_equal.
+    (* the suffix is attached here, before condense_contractions can swallow the suffix word *)
+    rewrite (condense_number_suffixes_shape _ (VInt (parse_dec D)) sx [a; b] A3 Nt Wt B3 eq_refl eq_refl).
+    - cbn [bind Nt Wt tspan sstart send].
+      set (Nm := mktok (mkspan p (p + d + 2)) (KNumber (VInt (parse_dec D)) (Some sx))).
+      destruct (condense_contractions_shape1 A3 Nm B3 eq_refl eq_refl G3) as (A4 & B4 & E4 & G4).
+      rewrite E4. cbn [bind].
+      destruct (condense_initialisms_shape1 A4 Nm B4 eq_refl eq_refl G4) as (A5 & B5 & E5 & HnA5 & HnB5).
+      rewrite E5. cbn [bind]. f_equal.
       rewrite <- rule_filter, post_passes_numbers, rule_filter.
-      cbn [Nt Wt tspan sstart send].
+      unfold Nm.
       rewrite (rule_one A5 B5 _ _ _ HnA5 HnB5) by (cbn [send]; lia).
       cbn [send]. unfold expected. fold p d. replace (p + d + 2 - 2) with (p + d) by lia. reflexivity.
     - cbn [Wt tspan]. unfold span_len, sub_chk. cbn [sstart send].
       destruct (p + d + 2 <? p + d) eqn:E; [apply Nat.ltb_lt in E; lia|]. f_equal. lia.
     - cbn [Wt tspan]. apply get_content_suffix.
     - apply from_chars_row. exact Hrow.
-    - exact HnA5.
-    - exact HnB5.
+    - destruct G3 as (H & _). exact H.
+    - destruct G3 as (_ & H & _). exact H.
   Qed.
 
   (* ---- C17_lint_iff ---- *)
@@ -368,6 +368,25 @@ Proof.
   apply (lint_digits U ut et pp L1 L2 L3 L4 Hpp); try assumption. apply from_chars_row. exact Hfc.
 Qed.
 
+(* FC17a, fixed by dcfd71f: a suffix directly followed by an apostrophe (`the 2st's value`, `11st’s`) is judged like
+   any other: the class ctx_ok no longer excludes a right context that starts with an apostrophe, so this is
+   lint_iff_thm for post = q :: post' (stated separately because it used to be the refuted case). *)
+Theorem apostrophe_lint_thm :
+  forall (U : uni) (ut : text -> nat) (et : text -> nat -> option nat) (pp : text -> list token -> list token),
+  ascii_laws U -> numbers_preserved pp ->
+  forall (n : N) (a b : N) (sx : suffix) (pre : text) (q : N) (post : text),
+  (n < two53)%N -> from_chars [a; b] = Some sx -> is_apostrophe_char q = true ->
+  ctx_ok U pre (render n) [a; b] (q :: post) = true ->
+  exists ls, lint_text U ut et pp (pre ++ render n ++ [a; b] ++ q :: post) = Ok (Some ls)
+    /\ (ls = [] <-> sx = ordinal n)
+    /\ (sx <> ordinal n ->
+        ls = [mkmlint (mkspan (length pre + length (render n)) (length pre + length (render n) + 2))
+                      [ReplaceWith (to_chars (ordinal n))]]).
+Proof.
+  intros U ut et pp HU Hpp n a b sx pre q post Hn Hfc _ Hctx.
+  exact (lint_iff_thm U ut et pp HU Hpp n a b sx pre (q :: post) Hn Hfc Hctx).
+Qed.
+
 (* ------------------------------------------------------------------------------------------------ *)
 (* non-vacuity: a concrete U satisfying the laws (ASCII classes as Rust has them, every other          *)
 (* character in no class), the identity for the later passes                                          *)
@@ -393,40 +412,21 @@ Definition lint_ascii (src : text) : res (option (list mlint)) :=
 From Coq Require Import String Ascii.
 Definition txt (s : string) : text := map N_of_ascii (list_ascii_of_string s).
 
-(* ctx_ok without its clause "post does not start with an apostrophe" *)
-Definition ctx_ok_but_apostrophe (U : uni) (pre num sfx post : text) : bool :=
-  forallb (fun c => negb (u_numeric U c) && negb (c =? 91)%N && negb (c =? 64)%N) pre
-  && forallb (fun c => negb (u_numeric U c) && negb (c =? 64)%N) post
-  && match last_error pre with Some c => negb (u_lingual U c) | None => true end
-  && match post with c :: _ => negb (u_lingual U c) && negb (is_ascii_digit c) | [] => true end
-  && negb (has_scheme_mark (pre ++ num ++ sfx ++ post))
-  && dots_ok (pre ++ num ++ sfx ++ post).
-Lemma bool_shuffle (a b c l d ap e f : bool) :
-  a && b && c && (l && d && ap) && e && f = a && b && c && (l && d) && e && f && ap.
-Proof. destruct a, b, c, l, d, ap, e, f; reflexivity. Qed.
-Lemma ctx_ok_split (U : uni) (pre num sfx post : text) :
-  ctx_ok U pre num sfx post =
-  ctx_ok_but_apostrophe U pre num sfx post
-  && match post with c :: _ => negb (is_apostrophe_char c) | [] => true end.
-Proof.
-  unfold ctx_ok, ctx_ok_but_apostrophe.
-  destruct post as [|c r].
-  - rewrite !andb_true_r. reflexivity.
-  - apply bool_shuffle.
-Qed.
+(* the former witness of FC17a now draws its lint, and its context is covered (non-vacuity of apostrophe_lint_thm) *)
+Lemma apostrophe_example :
+  is_apostrophe_char 39%N = true /\ is_apostrophe_char 8217%N = true
+  /\ ctx_ok ascii_uni (txt "the ") (render 2) (txt "st") (txt "'s value") = true
+  /\ lint_ascii (txt "the 2st's value") = Ok (Some [mkmlint (mkspan 5 7) [ReplaceWith (txt "nd")]])
+  /\ lint_ascii (txt "the 2nd's value") = Ok (Some [])
+  /\ lint_ascii (txt "11ST'") = Ok (Some [mkmlint (mkspan 2 4) [ReplaceWith (txt "th")]]).
+Proof. vm_compute. repeat split; reflexivity. Qed.
 
-(* FC17a: `the 2st's value` — a wrong suffix directly followed by an apostrophe and a word draws no lint:
-   condense_contractions merges `st's` into one word before condense_number_suffixes looks at it.  Every
-   clause of ctx_ok except "post does not start with an apostrophe" holds. *)
-Lemma apostrophe_refuted :
-  exists (pre post : text) (n a b : N) (sx : suffix),
-    (n < two53)%N /\ from_chars [a; b] = Some sx /\ sx <> ordinal n
-    /\ ctx_ok_but_apostrophe ascii_uni pre (render n) [a; b] post = true
-    /\ lint_ascii (pre ++ render n ++ [a; b] ++ post) = Ok (Some []).
-Proof.
-  exists (txt "the "), (txt "'s value"), 2%N, 115%N, 116%N, St.
-  split; [reflexivity|]. split; [reflexivity|]. split; [discriminate|]. split; vm_compute; reflexivity.
-Qed.
+(* HISTORY: with the pass order before dcfd71f (doc_tokens_old: condense_number_suffixes last) the same text drew
+   no lint — condense_contractions had merged `st's` into one word.  Kept as a regression witness only. *)
+Definition lint_ascii_old (src : text) : res (option (list mlint)) :=
+  do t <- doc_tokens_old ascii_uni no_tail_url no_tail_email src; Ok (rule t).
+Lemma apostrophe_old_refuted : lint_ascii_old (txt "the 2st's value") = Ok (Some []).
+Proof. vm_compute. reflexivity. Qed.
 
 (* no clause of ctx_ok can be dropped: for each one a text violating only (essentially) that clause on
    which a wrong suffix draws no lint, or on which more than the one lint is reported *)
